@@ -214,6 +214,463 @@ def split_blocks(out):
     return blocks
 
 
+
+# ================================================================ the property monitor
+# The trace semantics (coq/Spec/ScriptSem.v, the statement of C08_refines) evaluated on the IMPLEMENTATION's own
+# telemetry: every action of the "sem" cases runs with a verbose callback, so the C reports each send (the bytes it
+# queued), each expect (the bytes it consumed) and each delay (its length) in order.  The monitor walks the script by
+# structural recursion (no stack, no flags - a python generator per action) and demands that the next telemetry
+# event is exactly what the semantics allows next; at completion the walk must be at the end of the script and the
+# request's argument table must be the one the semantics computed.  Script selection is NOT decided here (C01): the
+# first send of a generated script carries a verb that names the script and its %s names the action's plugs.
+ST_UNKNOWN, RT_NONE = 0, 0
+
+
+class Mismatch(Exception):
+    def __init__(self, clause, site, detail):
+        Exception.__init__(self, detail); self.clause, self.site, self.detail = clause, site, detail
+
+
+def unmemstr(s):
+    """inverse of dbg_memstr for texts without a literal backslash"""
+    out = bytearray(); i = 0
+    while i < len(s):
+        c = s[i]
+        if c == "\\" and i + 1 < len(s) and s[i + 1] in "rnt":
+            out.append({"r": 13, "n": 10, "t": 9}[s[i + 1]]); i += 2
+        elif c == "\\" and i + 3 < len(s) + 0 and all(x in "01234567" for x in s[i + 1:i + 4]) and len(s[i + 1:i + 4]) == 3:
+            out.append(int(s[i + 1:i + 4], 8) & 255); i += 4
+        else:
+            out.append(ord(c) & 255); i += 1
+    return out.decode("latin-1")
+
+
+def posix_match_end(pat, consumed):
+    """the match regexec found, given that the C consumed the buffer up to its end: leftmost start whose match ends
+    at the end of `consumed` (the generated patterns are unambiguous, so python's groups are POSIX's)"""
+    try:
+        return re.search("(?:%s)\\Z" % pat, consumed)
+    except re.error:
+        return None
+
+
+def send_matches(fmt, ps, text):
+    """text == fmt with %s -> the block's argument (single plug: its name; several: a range expression denoting
+    exactly their names; none: "(null)") and %% -> %"""
+    rx, i, multi = "", 0, False
+    while i < len(fmt):
+        if fmt.startswith("%s", i):
+            if not ps: rx += re.escape("(null)")
+            elif len(ps) == 1: rx += re.escape(ps[0][0])
+            else: rx += "(.*)"; multi = True
+            i += 2
+        elif fmt.startswith("%%", i):
+            rx += "%"; i += 2
+        else:
+            rx += re.escape(fmt[i]); i += 1
+    m = re.fullmatch(rx, text, re.S)
+    if not m: return False
+    if multi:
+        try:
+            return sorted(pmgen.expand(m.group(1))) == sorted(p[0] for p in ps)
+        except Exception:
+            return False
+    return True
+
+
+class Walk:
+    """one action: the script's meaning as a generator of demands; .shadow is the request's argument table"""
+
+    def __init__(self, consts, plugs, ranged, shadow, script, ps):
+        self.c, self.plugs, self.ranged, self.shadow = consts, plugs, ranged, shadow
+        self.xm = None; self.not_before = None; self.site = "top"
+        self.gen = self.block(script, ps, ("top",)); self.result = None; self.need = None
+        self.step(None)
+
+    def step(self, ev):
+        try:
+            self.need = self.gen.send(ev)
+        except StopIteration as e:
+            self.need = None; self.result = e.value or "ok"
+
+    # --- semantics
+    def block(self, stmts, ps, where):
+        for st in stmts:
+            r = yield from self.stmt(st, ps, where)
+            if r == "fail": return "fail"
+        return "ok"
+
+    def clause(self, where, dflt):
+        for w in reversed(where):
+            if w in ("foreachplug", "foreachnode"): return "foreach-plugs"
+            if w in ("ifon", "ifoff"): return "ifonoff"
+        return dflt
+
+    def demand(self, kind, st, where):
+        self.site = where[-1] + ":" + st.kind
+        ev = yield (kind, st)
+        if ev[0] != kind:
+            raise Mismatch(self.clause(where, "program-order"), self.site, "the script is at `%s` (%s) but the implementation reports a %s: %r" % (st.text("").strip(), "/".join(where), ev[0], ev[1]))
+        return ev
+
+    def cap(self, i):
+        if self.xm is None or i < 0 or i > 20: return None
+        try: return self.xm.group(i)
+        except IndexError: return None
+
+    def interp(self, ints, s, on_code, off_code, dflt):
+        for code, pat in ints:
+            try:
+                if re.search(pat, s, re.S): return on_code if code in ("on", "success") else off_code
+            except re.error: pass
+        return dflt
+
+    def node_of(self, name):
+        for n, node in self.plugs:
+            if n == name: return node
+        return None
+
+    def stmt(self, st, ps, where):
+        k, c = st.kind, self.c
+        if k == "send":
+            ev = yield from self.demand("send", st, where)
+            if not send_matches(st.fmt, ps, ev[1]):
+                raise Mismatch(self.clause(where, "send-argument"), self.site, "send %r in a block with plugs %s must queue the format with that argument, the implementation queued %r" % (st.fmt, [p[0] for p in ps] if ps is not None else None, ev[1]))
+        elif k == "expect":
+            ev = yield from self.demand("recv", st, where)
+            m = posix_match_end(st.re_src, ev[1])
+            if m is None:
+                raise Mismatch("expect-match", self.site, "expect %r finished on %r, which does not end in a match" % (st.re_src, ev[1]))
+            self.xm = m
+        elif k == "delay":
+            ev = yield from self.demand("delay", st, where)
+            us = int(round(float(st.secs) * 1000000))
+            if ev[1] != us:
+                raise Mismatch("delay", self.site, "delay %s reported as %d usec" % (st.secs, ev[1]))
+            self.not_before = (ev[2] + us, st.secs, ev[2])
+        elif k == "setplugstate":
+            name = st.lit if st.lit is not None else self.cap(st.pmp)
+            if name is None and ps: name = ps[0][0]
+            if name is not None:
+                val, node = self.cap(st.smp), self.node_of(name)
+                if val is not None and node is not None and node in self.shadow:
+                    self.shadow[node][0] = self.interp(st.interps, val, c["ST_ON"], c["ST_OFF"], c["ST_UNKNOWN"])
+                    self.shadow[node][2] = val
+        elif k == "setresult":
+            name = self.cap(st.pmp)
+            if name is not None:
+                val, node = self.cap(st.smp), self.node_of(name)
+                if val is not None and node is not None and node in self.shadow:
+                    self.shadow[node][1] = self.interp(st.interps, val, c["RT_SUCCESS"], c["RT_SUCCESS"], c["RT_UNKNOWN"])
+                    self.shadow[node][2] = val
+        elif k in ("foreachplug", "foreachnode"):
+            lst = (ps or []) if self.ranged else self.plugs
+            if k == "foreachnode": lst = [p for p in lst if p[1] is not None]
+            for p in lst:
+                r = yield from self.block(st.body, [p], where + (k,))
+                if r == "fail": return "fail"
+        elif k in ("ifon", "ifoff"):
+            state = c["ST_UNKNOWN"]
+            if ps and ps[0][1] is not None and ps[0][1] in self.shadow: state = self.shadow[ps[0][1]][0]
+            if state == (c["ST_ON"] if k == "ifon" else c["ST_OFF"]):
+                r = yield from self.block(st.body, ps if ps is not None else [], where + (k,))
+                if r == "fail": return "fail"
+            elif state == c["ST_UNKNOWN"]:
+                self.site = where[-1] + ":" + k
+                return "fail"
+        return "ok"
+
+
+def monitor_case(consts, meta, ops, out):
+    """walk the implementation's output of one sem case; raises Mismatch"""
+    plugs = meta["plugs"]                                   # [(name, node|None)] in device order (from the real parser)
+    scripts = meta["scripts"]                               # kind -> [Stmt]
+    by_verb = {sc[0].fmt.split()[0].strip(): k for k, sc in scripts.items() if sc and sc[0].kind == "send" and k != "login"}
+    enq = meta["enq"]                                       # client id -> dict(targets=[node], args=k)
+    shadows = {}                                            # args index -> {node: [state, result, val]}
+    cur = None                                              # the running action: dict(walk, client, first, kind)
+    disc = False; now = 0
+    blocks = iter(split_blocks(out))
+    stats = dict(actions=0, completed=0, events=0, restarts=0, failed=0)
+
+    def start(client, text):
+        verb = text.split()[0].strip() if text.split() else ""
+        kind = by_verb.get(verb)
+        if kind is None or client not in enq:
+            raise Mismatch("program-order", "action-start", "telemetry %r of client %d does not start any script of the device" % (text, client))
+        sc = scripts[kind]; targets = enq[client]["targets"]; k = enq[client]["args"]
+        shadow = shadows.setdefault(k, {n: [consts["ST_UNKNOWN"], 0, None] for n in targets})
+        tplugs = [p for p in plugs if p[1] is not None and p[1] in targets]
+        if kind.endswith("_all"): ps = None
+        elif kind.endswith("_ranged"): ps = tplugs
+        else:
+            ps = None
+            for p in tplugs:
+                if send_matches(sc[0].fmt, [p], text): ps = [p]
+            if ps is None:
+                raise Mismatch("send-argument", "action-start", "first send %r of script %s names no targeted plug of %s" % (text, kind, [p[0] for p in tplugs]))
+        stats["actions"] += 1
+        return dict(walk=Walk(consts, plugs, kind.endswith("_ranged"), shadow, sc, ps), client=client, first=text, kind=kind, args=k)
+
+    def feed(ev, client):
+        nonlocal cur, disc
+        stats["events"] += 1
+        if cur is not None and cur["walk"].need is None and ev[0] == "send" and ev[1].split() and ev[1].split()[0].strip() in by_verb:
+            cur = None                                      # previous action finished (its completion was reported), a new one starts
+        if cur is None:
+            if ev[0] != "send":
+                raise Mismatch("program-order", "action-start", "%s %r while no action is running" % (ev[0], ev[1]))
+            cur = start(client, ev[1]); disc = False
+        w = cur["walk"]
+        if w.not_before is not None and ev[2] < w.not_before[0]:
+            raise Mismatch("delay", w.site, "delay %s started at %d was over by %d" % (w.not_before[1], w.not_before[2], ev[2]))
+        if w.need is None or w.need[0] != ev[0] or (ev[0] == "send" and not send_matches(w.need[1].fmt, None, "") and False):
+            pass
+        if disc and ev[0] == "send" and ev[1] == cur["first"] and (w.need is None or w.need[0] != "send" or not _same_send(w, ev)):
+            cur = start(client, ev[1]); disc = False; stats["restarts"] += 1; stats["actions"] -= 1
+            w = cur["walk"]
+        if w.need is None:
+            raise Mismatch("program-order", "after-end", "the script %s is finished but the implementation reports %s %r" % (cur["kind"], ev[0], ev[1]))
+        w.not_before = None
+        w.step(ev)
+
+    def _same_send(w, ev):
+        return False
+
+    for op in ops:
+        if op.startswith("NOW "): now = int(op.split()[1]); continue
+        if not (op == "INIT" or op == "PASS" or op.startswith("ENQ ")): continue
+        blk = next(blocks, None)
+        if blk is None: break
+        if op != "PASS": continue
+        evl = [l for l in blk if l.startswith("EV ")]
+        done_ok = []
+        for idx, l in enumerate(evl):
+            w_ = l.split()
+            if w_[1] in ("DISC", "CONN"):
+                disc = True; continue
+            if w_[1] == "TELE":
+                client = int(w_[2]); txt = bytes.fromhex(w_[3]).decode("latin-1") if w_[3] != "-" else ""
+                m = re.match(r"(send|recv|delay|connect)\(([^)]*)\): ?(.*)\Z", txt, re.S)
+                if not m or m.group(1) == "connect": continue
+                kind, body = m.group(1), m.group(3)
+                if kind == "delay":
+                    sec, usec = body.strip().split(".")
+                    feed(("delay", int(sec) * 1000000 + int(usec), now), client)
+                else:
+                    if not (body.startswith("'") and body.endswith("'")): continue
+                    text = unmemstr(body[1:-1])
+                    if kind == "recv" and idx + 1 < len(evl) and evl[idx + 1].split()[1] == "DONE" and int(evl[idx + 1].split()[3]) != 0:
+                        continue                            # the buffer dump of a timed-out action
+                    feed((kind, text, now), client)
+            elif w_[1] == "DONE":
+                client, err = int(w_[2]), int(w_[3])
+                if cur is None or cur["client"] != client:
+                    continue                                # an action that never ran a statement (aborted / timed out in the queue)
+                w = cur["walk"]
+                if err == 0:
+                    if w.not_before is not None and now < w.not_before[0]:
+                        raise Mismatch("delay", w.site, "delay %s started at %d, action completed at %d" % (w.not_before[1], w.not_before[2], now))
+                    if w.need is not None:
+                        raise Mismatch("foreach-plugs" if "foreach" in w.site else "program-order", w.site, "action %s completed but the script is still at `%s`" % (cur["kind"], w.need[1].text("").strip()))
+                    if w.result == "fail":
+                        raise Mismatch("ifonoff", w.site, "ifon/ifoff on a plug of unknown state must fail the action, it completed")
+                    stats["completed"] += 1; done_ok.append(cur["args"])
+                else:
+                    stats["failed"] += 1
+                cur = None
+        # argument tables at the end of the pass, for requests one of whose actions completed and none is mid-way
+        for l in blk:
+            if l.startswith("ARGS "):
+                w_ = l.split(); k = int(w_[1])
+                if k not in done_ok or (cur is not None and cur["args"] == k) or k not in shadows: continue
+                got = {}
+                if w_[2] != "-":
+                    for ent in w_[2].split(","):
+                        n, st_, rs_, v = ent.split(":")
+                        got[bytes.fromhex(n).decode("latin-1")] = (int(st_), int(rs_), "" if v == "-" else bytes.fromhex(v).decode("latin-1"))
+                for node, (st_, rs_, v) in shadows[k].items():
+                    exp = (st_, rs_, v or "")
+                    if got.get(node) != exp:
+                        raise Mismatch("setplugstate-record", "args", "argument table of request %d: node %s holds (state, result, text) = %s, the script's semantics gives %s" % (k, node, got.get(node), exp))
+    return stats
+
+
+# ---------------------------------------------------------------- cases for the monitor
+E_OK, E_DONE = "ok\n", "done\n"
+E_PLUG = "plug ([a-z0-9]*): ([a-z]*)\n"                 # both fields may be EMPTY
+E_WORD = "([^ \n]+) ([A-Za-z0-9]+)\n"
+E_X = "x*"                                                # matches the empty string
+ST = pmgen.Stmt
+
+
+def sem_body(rng, depth, ranged):
+    n = rng.randint(1, 3 if depth else 4)
+    out = []
+    for _ in range(n):
+        r = rng.random()
+        if r < 0.22:
+            out.append(ST("send", fmt=rng.choice(["A %s\n", "B\n", "C %s 100%%\n", "D%%\n", "FN %s\n"])))
+        elif r < 0.44:
+            out.append(ST("expect", re_src=rng.choice([E_OK, E_OK, E_PLUG, E_PLUG, E_WORD, E_X, E_DONE])))
+        elif r < 0.58:
+            lit = rng.choice([None, None, None, "p1", "zz"])
+            pmp = rng.choice([1, 1, 1, 3]) if lit is None and rng.random() < 0.75 else -1
+            ints = rng.choice([[("on", "^on$"), ("off", "^off$")], [("on", "o"), ("off", "off")], [("off", "^$"), ("on", "on")], [("off", "off"), ("on", "o")], []])
+            out.append(ST("setplugstate", lit=lit, pmp=0 if lit is not None else pmp, smp=rng.choice([2, 2, 2, 1, 0]), interps=ints))
+        elif r < 0.66:
+            out.append(ST("setresult", pmp=1, smp=2, interps=rng.choice([[("success", "^on$")], [("success", "o")], [("success", "^$")]])))
+        elif r < 0.74:
+            out.append(ST("delay", secs=rng.choice(["0", "0.5", "1", "0.25"])))
+        elif depth < 2:
+            k = rng.choice(["foreachplug", "foreachnode", "foreachnode", "ifon", "ifoff"])
+            out.append(ST(k, body=sem_body(rng, depth + 1, ranged)))
+        else:
+            out.append(ST("send", fmt="E %s\n"))
+    return out
+
+
+def sem_script(rng, kind):
+    verb = kind.upper()
+    first = ST("send", fmt=(verb + "\n") if kind.endswith("_all") else (verb + " %s\n"))
+    return [first, ST("expect", re_src=rng.choice([E_OK, E_PLUG, E_PLUG, E_WORD]))] + sem_body(rng, 0, kind.endswith("_ranged"))
+
+
+SEM_KINDS = ["on", "on_ranged", "on_all", "off", "off_ranged", "off_all", "cycle", "cycle_ranged", "cycle_all", "reset", "status", "status_all",
+             "beacon_on", "beacon_on_ranged", "status_temp", "status_temp_all"]
+
+
+def sem_config(scripts, plugs, timeout=5.0):
+    """one device d0 with hard-wired plugs [(name, node|None)] and the given scripts (kind -> [Stmt])"""
+    cfg = pmgen.Config()
+    kinds = ["login"] + [k for k in scripts if k != "login"]
+    d = pmgen.Dev("d0", kinds, hardwired=[p[0] for p in plugs], timeout=timeout)
+    asts = {"d0": {}}
+    for k in kinds:
+        if k in scripts:
+            d.bodies[k] = "\n".join(s.text() for s in scripts[k]).lstrip("\t")
+            asts["d0"][k] = scripts[k]
+        else:
+            asts["d0"][k] = pmgen.parse_script_text(pmgen.script_text(k))
+    cfg.devs.append(d)
+    for name, node in plugs:
+        if node is not None:
+            cfg.node_lines.append((node, "d0", name))
+    return cfg, asts
+
+
+def sem_plugs(rng):
+    """hard-wired plug list with unmapped plugs anywhere, runs of two or more adjacent unmapped plugs included"""
+    nm = rng.randint(1, 4)
+    seq = ["m"] * nm
+    for _ in range(rng.choice([0, 1, 2, 2, 3, 4])):
+        seq.insert(rng.randint(0, len(seq)), "u")
+    if rng.random() < 0.4:
+        i = rng.randint(0, len(seq)); seq[i:i] = ["u", "u"]
+    out, mi, ui = [], 0, 0
+    for t in seq:
+        if t == "m": mi += 1; out.append(("p%d" % mi, "n%d" % (mi - 1)))
+        else: ui += 1; out.append(("u%d" % ui, None))
+    return out
+
+
+def sem_reply_pool(plugs):
+    names = [p[0] for p in plugs] + ["", "zz"]
+    pool = [E_OK] * 6 + [E_DONE] * 2 + ["xx", "x", "\n"]
+    for n in names:
+        for v in ["on", "off", "", "on", "off", "zap"]:
+            pool.append("plug %s: %s\n" % (n, v))
+    for n in [p[0] for p in plugs]:
+        pool += ["%s ON\n" % n, "%s OFF\n" % n]
+    return pool
+
+
+def sem_ops(rng, consts, plugs, kinds, pool, steps):
+    hx = lambda x: x.encode("latin-1").hex()
+    nodes = [p[1] for p in plugs if p[1] is not None]
+    ops = ["NOW 1000000", "PLAN 0 " + " ".join(["now"] * 12), "INIT", "PASS", "FEED 0 " + hx("ready\n"), "NOW 1100000", "PASS"]
+    enq, nargs, t = {}, 0, 1100000
+    words = [w for w in pmgen.POWER_WORDS + pmgen.QUERY_WORDS if any(k.startswith(pmgen.CLIENT_COMS[w]) for k in kinds)]
+    for step in range(steps):
+        r = rng.random()
+        if (r < 0.22 or step == 0) and words and nargs < 30:
+            tg = rng.sample(nodes, rng.randint(1, len(nodes)))
+            if rng.random() < 0.35: tg = list(nodes)
+            client = 100 + nargs
+            ops.append("NEWARGS " + ",".join(hx(x) for x in tg))
+            ops.append("ENQ %d %d 1 %d %s" % (consts[pmgen.KINDS[pmgen.CLIENT_COMS[rng.choice(words)]]], client, nargs, ",".join(hx(x) for x in tg)))
+            enq[client] = dict(targets=tg, args=nargs); nargs += 1
+        elif r < 0.80:
+            data = "".join(rng.choice(pool) for _ in range(rng.choice([1, 1, 2, 3])))
+            if rng.random() < 0.2: data = data[:rng.randint(0, len(data))]
+            ops.append("FEED 0 " + hx(data))
+        elif r < 0.83:
+            ops.append("PEERCLOSE 0")
+        t += rng.choice([0, 0, 1000, 100000, 250000, 500000, 1000000, 1000000, 6000000])
+        ops += ["NOW %d" % t, "PASS"]
+    return ops, enq
+
+
+def gen_sem_case(rng, consts):
+    plugs = sem_plugs(rng)
+    kinds = rng.sample(SEM_KINDS, rng.randint(3, 8))
+    scripts = {k: sem_script(rng, k) for k in kinds}
+    cfg, asts = sem_config(scripts, plugs, timeout=rng.choice([5.0, 3.0, 8.0]))
+    ops, enq = sem_ops(rng, consts, plugs, kinds, sem_reply_pool(plugs), rng.randint(15, 60))
+    return cfg, asts, ops, dict(scripts=scripts, enq=enq, style="sem")
+
+
+def directed_sem_cases(consts):
+    """the case splits of the proofs and the shapes of the seeded / mutated changes, hand-made"""
+    out = []
+    hx = lambda x: x.encode("latin-1").hex()
+    P = pmgen.parse_script_text
+
+    def one(scripts_txt, plugs, word, targets, steps, timeout=5.0):
+        scripts = {k: P(v) for k, v in scripts_txt.items()}
+        cfg, asts = sem_config(scripts, plugs, timeout=timeout)
+        ops = ["NOW 1000000", "PLAN 0 " + " ".join(["now"] * 8), "INIT", "PASS", "FEED 0 " + hx("ready\n"), "NOW 1100000", "PASS",
+               "NEWARGS " + ",".join(hx(x) for x in targets),
+               "ENQ %d 100 1 0 %s" % (consts[pmgen.KINDS[pmgen.CLIENT_COMS[word]]], ",".join(hx(x) for x in targets))]
+        t = 1200000
+        for o in steps:
+            if o is None: t += 100000; ops += ["NOW %d" % t, "PASS"]
+            elif isinstance(o, int): t += o; ops += ["NOW %d" % t, "PASS"]
+            elif o == "CLOSE": ops.append("PEERCLOSE 0")
+            else: ops.append("FEED 0 " + hx(o))
+        out.append((cfg, asts, ops, dict(scripts=scripts, enq={100: dict(targets=list(targets), args=0)}, style="sem-directed")))
+
+    mixed = [("u1", None), ("u2", None), ("p1", "n0"), ("u3", None), ("u4", None), ("u5", None), ("p2", "n1"), ("p3", "n2"), ("u6", None), ("u7", None)]
+    # foreachnode over a plug list with runs of adjacent unmapped plugs at the start, in the middle, at the end; non-ranged
+    one({"status_all": 'send "STATUS_ALL\\n"\n\t\texpect "ok\\n"\n\t\tforeachnode {\n\t\t\tsend "FN %s\\n"\n\t\t\texpect "ok\\n"\n\t\t}\n\t\tforeachplug {\n\t\t\tsend "FP %s\\n"\n\t\t}\n\t\texpect "done\\n"'},
+        mixed, "status", ["n0", "n1", "n2"], [None, None, "ok\n", None, None, "ok\n", None, None, "ok\n", None, None, "ok\n", None] + [None] * 12 + ["done\n", None, None])
+    # ranged script with ONE targeted plug and with several; foreachnode / foreachplug run over the targeted plugs only
+    for tg in (["n1"], ["n0", "n2"], ["n0", "n1", "n2"]):
+        one({"on_ranged": 'send "ON_RANGED %s\\n"\n\t\texpect "ok\\n"\n\t\tforeachplug {\n\t\t\tsend "FP %s\\n"\n\t\t\texpect "ok\\n"\n\t\t}\n\t\tforeachnode {\n\t\t\tsend "FN %s 100%%\\n"\n\t\t}\n\t\texpect "done\\n"'},
+            mixed, "on", tg, [None, None, "ok\n", None] + [None, "ok\n", None] * 3 + [None] * 8 + ["done\n", None, None])
+    # captures that matched the EMPTY string: an empty plug name names no plug (no fallback to the target); an empty status is recorded
+    for reply in ["plug : on\n", "plug p2: \n", "plug p1: on\n", "plug zz: off\n", "plug u1: on\n"]:
+        one({"status": 'send "STATUS %s\\n"\n\t\texpect "plug ([a-z0-9]*): ([a-z]*)\\n"\n\t\tsetplugstate $1 $2 off="^$" on="on"\n\t\texpect "done\\n"'},
+            mixed, "status", ["n0"], [None, None, reply, None, "done\n", None, None])
+        one({"on": 'send "ON %s\\n"\n\t\texpect "plug ([a-z0-9]*): ([a-z]*)\\n"\n\t\tsetresult $1 $2 success="^$"\n\t\texpect "done\\n"'},
+            mixed, "on", ["n1"], [None, None, reply, None, "done\n", None, None])
+    # first matching interpretation; literal / captured / implied plug
+    for verdict in ["off", "o", "on", "zap"]:
+        one({"status": 'send "STATUS %%s\\n"\n\t\texpect "plug ([a-z0-9]*): ([a-z]*)\\n"\n\t\tsetplugstate $1 $2 on="o" off="off"\n\t\tsetplugstate "p2" $2 off="off" on="o"\n\t\tsetplugstate $2 on="^o" off="zap"\n\t\texpect "done\\n"'.replace("%%", "%")},
+            mixed, "status", ["n0", "n1"], [None, None, "plug p3: %s\n" % verdict, None, "done\n", None, None, "plug p3: %s\n" % verdict, None, "done\n", None])
+    # ifon / ifoff with a foreach inside, state on / off / unknown
+    for verdict in ["on", "off", "zap"]:
+        one({"cycle": 'send "CYCLE %s\\n"\n\t\texpect "plug ([a-z0-9]*): ([a-z]*)\\n"\n\t\tsetplugstate $1 $2 on="^on$" off="^off$"\n\t\tifon {\n\t\t\tsend "WASON %s\\n"\n\t\t\tforeachnode {\n\t\t\t\tsend "IN %s\\n"\n\t\t\t}\n\t\t}\n\t\tifoff {\n\t\t\tsend "WASOFF %s\\n"\n\t\t\tdelay 0\n\t\t}\n\t\tsend "END %s\\n"\n\t\texpect "done\\n"'},
+            mixed, "cycle", ["n1"], [None, None, "plug p2: %s\n" % verdict] + [None] * 14 + ["done\n", None, None])
+    # delays: over exactly at, and not before, start + delay; delay 0; expect that matches the empty string
+    one({"reset": 'send "RESET %s\\n"\n\t\texpect "x*"\n\t\tdelay 1\n\t\tsend "A %s\\n"\n\t\tdelay 0\n\t\tsend "B\\n"\n\t\tdelay 0.5\n\t\texpect "done\\n"'},
+        mixed, "reset", ["n2"], [None, None, "yy", None, 400000, 400000, 100000, 99999, 1, None, None, None, None, 499999, 1, "done\n", None, None])
+    # connection drops inside a send / a foreach / a delay: the retried action starts over (F9)
+    one({"on": 'send "ON %s\\n"\n\t\texpect "ok\\n"\n\t\tdelay 1\n\t\tforeachplug {\n\t\t\tsend "FP %s\\n"\n\t\t\texpect "ok\\n"\n\t\t}\n\t\texpect "done\\n"'},
+        mixed[:4], "on", ["n0"], [None, None, "ok\n", None, "CLOSE", None, 1000000, None, "ready\n", None, None, "ok\n", None, 1000000, None] + [None, "ok\n", None] * 5 + ["done\n", None, None], timeout=20.0)
+    return out
+
+
 def run(ctx, V):
     import C01
     proofs_ok = vlib.proof_gate(ctx, V, extract=["Extract/ExDevice.vo", "Extract/ExEnqueue.vo"])
